@@ -166,6 +166,9 @@ func (sc *c13Scenario) Run(s *simrt.Sim) {
 	proxy := &c13Proxy{a: actor, s: s, reqs: func(m int) *c13Req { return byMsg[m] }}
 	doAsk := func(name string, r *c13Req) {
 		ask := fpgo.AskNewGenerics[int, int](r.msg)
+		if r.msg%3 == 0 {
+			ask = (&fpgo.AskDef[int, int]{}).New(r.msg) // method-style constructor
+		}
 		switch r.spec.Via {
 		case "AskOnce":
 			r.op = h.Do(name, "AskOnce", r.msg, func() (interface{}, error) { return ask.AskOnce(proxy), nil })
